@@ -679,15 +679,15 @@ func cdcRefHook(r *typegen.Reader, t reflect.Type, path string) bool {
 			arm = f.Type.Elem()
 		}
 	}
+	r.Need(l-1, path+".payload") // the implementation reads the payload before looking at the type
 	if arm == nil {
 		r.Pos = start + 4
 		r.Need(1<<30, path+".Type#invalid-tag") // reported as a reject below
 	}
-	r.Need(l-1, path+".payload")
 	sub := &typegen.Reader{Data: r.Data[r.Pos : r.Pos+l-1], Seg: r.Seg, Hook: cdcRefHook}
 	subN, rej := 0, (*typegen.Reject)(nil)
 	func() {
-		subN, rej = typegen.RefDecode(arm, sub.Data, r.Seg, cdcRefHook)
+		subN, rej = typegen.RefDecodeLax(arm, sub.Data, r.Seg, cdcRefHook, r.Lax)
 	}()
 	if rej != nil {
 		rej.Off += r.Pos
